@@ -19,6 +19,9 @@ func (env *Env) resolveType(s string) types.Type {
 	if pkg == nil {
 		sfail("cannot resolve type %s: package types not loaded", s)
 	}
+	if i := strings.Index(s, "["); i > 0 && strings.HasSuffix(s, "]") {
+		s = s[:i] // name[T]: the type arguments are those of the function under verification
+	}
 	name := s
 	if i := strings.Index(s, "."); i > 0 {
 		var found *types.Package
@@ -45,6 +48,19 @@ func (env *Env) resolveType(s string) types.Type {
 			}
 		}
 		sfail("unknown type %s", s)
+	}
+	if nt, ok := tn.Type().(*types.Named); ok && nt.TypeParams().Len() > 0 && env.ex != nil && env.ex.fn != nil {
+		// a generic type named inside a generic function: instantiate it with that function's own type parameters
+		tps := env.ex.fn.TypeParams()
+		if tps.Len() == nt.TypeParams().Len() {
+			var targs []types.Type
+			for i := 0; i < tps.Len(); i++ {
+				targs = append(targs, tps.At(i))
+			}
+			if inst, err := types.Instantiate(nil, nt, targs, false); err == nil {
+				return inst
+			}
+		}
 	}
 	return tn.Type()
 }
